@@ -22,6 +22,7 @@ type Ctx struct {
 	Deadline time.Time
 	Rep      *report.Reporter
 	Ev       *report.Evidence
+	StatID   string // see sid()
 }
 
 // Quick reports whether the quick tier runs.
@@ -159,9 +160,9 @@ func RunExplore(c *Ctx, runs []WorldRun, mons func(w *worlds.World) []explore.Mo
 		transitions += st.Transitions
 		histories += st.Histories
 		blocks += st.BlocksRun
-		evals += st.MonitorEvals[c.ID]
-		nontrivial += st.Nontrivial[c.ID]
-		distinct += len(st.NontrivialDistinct[c.ID])
+		evals += st.MonitorEvals[c.sid()]
+		nontrivial += st.Nontrivial[c.sid()]
+		distinct += len(st.NontrivialDistinct[c.sid()])
 		outcomes += len(st.Outcomes)
 		if !st.Exhaustive {
 			exhaustive = false
@@ -173,8 +174,8 @@ func RunExplore(c *Ctx, runs []WorldRun, mons func(w *worlds.World) []explore.Mo
 		}
 		perWorld = append(perWorld, map[string]interface{}{"world": r.World, "bounds": b.String(), "dedupe": !r.NoDedupe, "states": st.States, "transitions": st.Transitions,
 			"histories_executed": st.Histories, "blocks_executed": st.BlocksRun, "levels_completed": st.LevelsDone, "exhaustive": st.Exhaustive, "distinct_outcomes": len(st.Outcomes),
-			"monitor_evaluations": st.MonitorEvals[c.ID], "nontrivial": st.Nontrivial[c.ID], "faults_seen": st.Faults, "wall_s": st.Wall.Seconds(), "menu": len(w.Menu), "envs": len(w.Envs)})
-		fmt.Printf("  world %-10s %s states=%d transitions=%d histories=%d outcomes=%d nontrivial=%d exhaustive=%v wall=%.1fs\n", r.World, b, st.States, st.Transitions, st.Histories, len(st.Outcomes), st.Nontrivial[c.ID], st.Exhaustive, st.Wall.Seconds())
+			"monitor_evaluations": st.MonitorEvals[c.sid()], "nontrivial": st.Nontrivial[c.sid()], "faults_seen": st.Faults, "wall_s": st.Wall.Seconds(), "menu": len(w.Menu), "envs": len(w.Envs)})
+		fmt.Printf("  world %-10s %s states=%d transitions=%d histories=%d outcomes=%d nontrivial=%d exhaustive=%v wall=%.1fs\n", r.World, b, st.States, st.Transitions, st.Histories, len(st.Outcomes), st.Nontrivial[c.sid()], st.Exhaustive, st.Wall.Seconds())
 	}
 	cv := c.Ev.Coverage
 	addI := func(k string, v int64) {
@@ -218,4 +219,13 @@ func mergeExtra(p replayPayload, extra map[string]interface{}) interface{} {
 		m[k] = v
 	}
 	return m
+}
+
+// sid is the property id under which the monitors of this run report (StatID overrides ID
+// when a property is assembled from parts built under temporary ids).
+func (c *Ctx) sid() string {
+	if c.StatID != "" {
+		return c.StatID
+	}
+	return c.ID
 }
